@@ -41,6 +41,8 @@ type Variant struct {
 	Cut        int      // -1: none; otherwise backup after Cut requests, restore into a new store, replay the tail
 	Part       [][]Call // operator lifetimes (one applyEntries event each) -> calls
 	compactSet bool     // (generation only) Compact was set on purpose
+	Rewind     int      // >= 0 (with Cut >= 0): go on applying live up to this position on the SAME store, then install the checkpoint taken at Cut on it and replay from Cut
+	rewindSet  bool     // (generation only) Rewind was set on purpose
 	Compact    int      // >= 0: force a full compaction of the store after this many requests (-1: never)
 	Syncer     bool     // the entries carry Type = FromClusterSyncer (conflict pre-check when applied live)
 	Expire     int      // local-deletion policy only: run the node-local expiry sweep after this many requests (-1: never)
@@ -174,6 +176,9 @@ func (v *Variant) line() string {
 	if v.Compact >= 0 {
 		fl += "c" + strconv.Itoa(v.Compact)
 	}
+	if v.Rewind >= 0 && v.Cut >= 0 {
+		fl += "w" + strconv.Itoa(v.Rewind)
+	}
 	if fl == "" {
 		fl = "-"
 	}
@@ -186,7 +191,7 @@ func parseVariant(f []string) (*Variant, error) {
 	}
 	v := &Variant{ID: f[0], Engine: f[2], Replay: f[3] == "1"}
 	var err error
-	if v.Shift, err = strconv.Atoi(f[4]); err != nil || v.Shift < 0 || v.Shift >= len(shifts) {
+	if v.Shift, err = strconv.Atoi(f[4]); err != nil || v.Shift < 0 || v.Shift > len(shifts) {
 		return nil, fmt.Errorf("bad shift")
 	}
 	if v.Cut, err = strconv.Atoi(f[5]); err != nil {
@@ -199,8 +204,15 @@ func parseVariant(f []string) (*Variant, error) {
 		return nil, err
 	}
 	v.Compact = -1
+	v.Rewind = -1
 	if len(f) > 8 {
 		fl := f[8]
+		if i := strings.Index(fl, "w"); i >= 0 {
+			if n, err := strconv.Atoi(fl[i+1:]); err == nil {
+				v.Rewind = n
+			}
+			fl = fl[:i]
+		}
 		if strings.HasPrefix(fl, "s") {
 			v.Syncer = true
 			fl = fl[1:]
@@ -689,4 +701,38 @@ func (l *Log) pfKeys() map[string]bool {
 		}
 	}
 	return m
+}
+
+// purePfKeys: PFADD targets on which no other command of the log works (their PFCOUNT is a function
+// of the log alone whenever the cache has been flushed).
+func (l *Log) purePfKeys() [][]byte {
+	pf := l.pfKeys()
+	for _, r := range l.Reqs {
+		if r.Kind != 'R' || len(r.Args) < 2 {
+			continue
+		}
+		name := strings.ToLower(string(r.Args[0]))
+		if name == "pfadd" {
+			continue
+		}
+		switch name {
+		case "del", "hmclear", "lmclear", "smclear", "zmclear":
+			for _, a := range r.Args[1:] {
+				delete(pf, string(a))
+			}
+		case "mset", "plset":
+			for i := 1; i < len(r.Args); i += 2 {
+				delete(pf, string(r.Args[i]))
+			}
+		default:
+			delete(pf, string(r.Args[1]))
+		}
+	}
+	var out [][]byte
+	for _, k := range l.universe() {
+		if pf[string(k)] {
+			out = append(out, k)
+		}
+	}
+	return out
 }
